@@ -9,7 +9,9 @@ through soupsieve directly.  Oracles:
   b-agree      BeautifulSoup(...).select & co. give what soupsieve.select & co. give, and succeed
   c-order      all runs with the same probe and the same available parsers give identical results,
                whichever import program preceded the probe
-  d-silent     importing produces no output and no warning attributed to a file of the package
+  d-silent     importing produces no output, no warning attributed to a file of the package, and leaves
+               process-wide interpreter state alone (warning filters, sys.path, recursion limit, hooks, signal
+               handlers, logging root, locale, environment, cwd, threads)
   e-origin     soupsieve was imported from the tree under test
 """
 from __future__ import annotations
@@ -192,6 +194,9 @@ def judge(job, res, rc, stderr):
     if res['stdout'] or res['stderr']:
         return {'oracle': 'd-silent', 'detail': 'output during import/probe', 'stdout': res['stdout'][:300],
                 'stderr': res['stderr'][:300]}
+    if res.get('state_changed'):
+        return {'oracle': 'd-silent', 'detail': 'importing changed process-wide interpreter state',
+                'state_changed': {k: [str(v[0])[:160], str(v[1])[:160]] for k, v in res['state_changed'].items()}}
     for wn in res['warnings']:
         fn = wn.get('filename') or ''
         if os.path.abspath(fn).startswith(pkg) or 'soupsieve' in (wn.get('message') or '').lower():
@@ -331,6 +336,8 @@ def signature(rec):
         err = v.get('error') or {}
         return f"b-agree:{err.get('exc', 'mismatch')}"
     if o == 'd-silent':
+        if 'state_changed' in v:
+            return 'd-silent:state:' + '+'.join(sorted(v['state_changed']))
         return 'd-silent:' + ('warning' if 'warning' in v else 'output')
     return o
 
